@@ -340,6 +340,44 @@ Record conforms (S : schema) (inst : vertex -> string -> Prop) (g : graph) : Pro
   cf_coerce : forall from to v, g_coerce g from to v = true -> inst v to
 }.
 
+(* finite datasets: v is an instance of t when its concrete type is listed under t in d_subs (this is
+   what GraphAdapter / ds_coerce answer); `dataset_conforms` is a decidable sufficient condition for
+   `conforms S (inst_of d) (graph_of_dataset d)` *)
+Definition in_type (d : dataset) (t : string) (v : vertex) : bool := ds_coerce d "" t v.
+Definition inst_of (d : dataset) (v : vertex) (t : string) : Prop := in_type d t v = true.
+
+Definition dataset_conforms (S : schema) (d : dataset) : bool :=
+  (* the instance lists are upward closed along the schema's subtype table *)
+  forallb (fun sup =>
+             forallb (fun sub =>
+                        match lookup_str sub (d_subs d) with
+                        | Some l => forallb (fun ct => match lookup_str (fst sup) (d_subs d) with
+                                                       | Some l' => mem_str ct l'
+                                                       | None => false
+                                                       end) l
+                        | None => true
+                        end) (snd sup)) (s_subs S)
+  (* entry points list instances of their declared target *)
+  && forallb (fun en => match lookup_str (ed_name en) (d_starts d) with
+                        | Some ns => forallb (in_type d (ed_target en)) ns
+                        | None => true
+                        end) (s_entries S)
+  (* an edge declared on a type leads, from every instance of that type, to instances of its target *)
+  && forallb (fun te =>
+                forallb (fun decl =>
+                           forallb (fun ve => if in_type d (fst te) (fst ve)
+                                              then match lookup_str (ed_name decl) (snd ve) with
+                                                   | Some ns => forallb (in_type d (ed_target decl)) ns
+                                                   | None => true
+                                                   end
+                                              else true) (d_edges d)) (snd te)) (s_edges S).
+
+(* every vertex bound by an assignment / recorded in a context is an instance of its IR vertex' type *)
+Definition asg_typed (inst : vertex -> string -> Prop) (vs : list ir_vertex) (a : asg) : Prop :=
+  forall vid v vtx, In (vid, Some v) (a_v a) -> find_vertex vs vid = Some vtx -> inst v (v_type vtx).
+Definition ctx_typed (inst : vertex -> string -> Prop) (vs : list ir_vertex) (c : ctx) : Prop :=
+  forall vid v vtx, In (vid, Some v) (vertices c) -> find_vertex vs vid = Some vtx -> inst v (v_type vtx).
+
 (* ---------- canonical rendering (mirrored by harness/src/bin/tfh_calls.rs) ---------- *)
 Local Open Scope string_scope.
 Definition show_params (ps : params) : string :=
@@ -381,3 +419,8 @@ Definition run_c21 (S : schema) (rq : raw_query) (observed : list call) : string
       ++ "|STATIC:" ++ show_call_set (static_calls_of_query q)
       ++ "|OBSERVED:" ++ show_call_set (filter (fun c => mem_str (show_call c) model) observed)
   end.
+
+(* same, for a world with a finite dataset: CONFORMS = the dataset meets the hypothesis of the dynamic
+   theorem (dataset_conforms, sufficient for `conforms`) *)
+Definition run_c21d (S : schema) (d : dataset) (rq : raw_query) (observed : list call) : string :=
+  "CONFORMS:" ++ show_bool (dataset_conforms S d) ++ "|" ++ run_c21 S rq observed.
